@@ -82,8 +82,12 @@ fn scenarios(tier: Tier) -> Vec<(Program, usize)> {
         ];
         for (entry, keyed, declare, chunks) in shapes {
             for fl in [Fl::Sync, Fl::Async] {
-                for state in 0..3 {
+                for state in 0..4 {
                     n += 1;
+                    // state 3 (temp area on another filesystem) for a third of the shapes
+                    if state == 3 && n % 3 != 0 {
+                        continue;
+                    }
                     // quick tier: thin the MiB sizes
                     if tier == Tier::Quick && len > 100_000 && (n % 3 != 0) {
                         continue;
@@ -93,7 +97,11 @@ fn scenarios(tier: Tier) -> Vec<(Program, usize)> {
                     }
                     let blobs = vec![Blob::new(len, 21), Blob::new(13, 22)];
                     let mut steps = Vec::new();
-                    // 0 = cold cache, 1 = warm (another entry exists), 2 = the address already exists
+                    // 0 = cold cache, 1 = warm (another entry exists), 2 = the address already exists,
+                    // 3 = <cache>/tmp is a symlink to another filesystem (rename cannot publish)
+                    if state == 3 {
+                        steps.push(Step { op: Op::TmpElsewhere, fl: Fl::Sync });
+                    }
                     if state == 1 {
                         steps.push(Step { op: Op::Write(WriteSpec::simple(Some(1), 1)), fl: Fl::Sync });
                     }
@@ -181,7 +189,7 @@ impl Engine for C03 {
     }
     fn rule(&self) -> String {
         "write scenarios (one-shot / streamed / memory-mapped / plain, keyed / by address, sync and async on both builds, sizes around the 1 MiB mmap threshold, cold / warm \
-         cache, address already present) executed in a driver process under the ptrace supervisor: (1) pause-inspect — the writer is held before EVERY mutating system call \
+         cache, address already present, temp area on another filesystem) executed in a driver process under the ptrace supervisor: (1) pause-inspect — the writer is held before EVERY mutating system call \
          of the write and the live tree is judged (a held process is exactly what a SIGKILL at that point leaves); (2) torn writes — the byte count of a data write(2) is \
          rewritten to k, 0<k<n, the call runs and the process is killed at its return (every k for small data, generated k otherwise), plus real kills before the g-th call; \
          (3) no-crash random programs incl. rejected commits and abandoned writers with the predicate after every step. Predicate: every non-directory under content-v2 \
